@@ -181,6 +181,10 @@ func HotSpotParamRuleJsonArrayParser(src []byte) (interface{}, error) {
 	}
 	rules := make([]*hotspot.Rule, len(hotspotRules))
 	for i, hotspotRule := range hotspotRules {
+		if hotspotRule == nil {
+			// a null element stays a nil rule: it is never valid and the rule manager ignores it
+			continue
+		}
 		rules[i] = &hotspot.Rule{
 			ID:                hotspotRule.ID,
 			Resource:          hotspotRule.Resource,
